@@ -224,10 +224,9 @@ pub fn c05_shortcut(c: &TextCase) -> Outcome {
         let expect: Vec<String> = paras.iter().enumerate().map(|(k, p)| format!("{}{}", o.indent_of(k), p.trim_end_matches(' '))).collect();
         let got: Vec<String> = lines.iter().map(|l| l.to_string()).collect();
         if got != expect {
-            // the ASCII-space separator also splits at a space INSIDE an escape sequence (an OSC title, a CSI with an intermediate space);
-            // the pieces are then measured as cut-off sequences / plain text
-            let seq_with_space = ansi_pieces(&c.text).map_or(false, |ps| ps.iter().any(|(is_seq, t)| *is_seq && t.contains(' ')));
-            let class = if o.sep == Sep::Ascii && seq_with_space { "[class=KF5-escape-sequence-containing-a-space-ascii-separator] " } else { "" };
+            // the ASCII-space separator also splits at a space INSIDE an escape sequence, the hyphen splitter at a hyphen inside one; the
+            // pieces are then measured as cut-off sequences / plain text
+            let class = seq_cut_class(&c.text, o);
             return Err(format!("{}every paragraph fits (width {}), expected {:?}, got {:?}", class, o.width, expect, got));
         }
     }
@@ -443,7 +442,7 @@ pub fn c14_idempotent(c: &TextCase) -> Outcome {
     }
     let twice = fill(&once, o.options());
     if once != twice {
-        return Err(format!("fill(fill(t)) = {:?} differs from fill(t) = {:?}", twice, once));
+        return Err(format!("{}fill(fill(t)) = {:?} differs from fill(t) = {:?}", seq_cut_class(&c.text, o), twice, once));
     }
     Ok(lines1.len() >= 2)
 }
